@@ -25,7 +25,8 @@ func (*Map) Assign(gen Generator, ctx *MethodContext, assignTo *AssignTo, source
 
 	errPath = errPath.Key(jen.Id(key))
 
-	block, keyID, err := gen.Build(ctx, xtype.VariableID(jen.Id(key)), source.MapKey, target.MapKey, errPath)
+	// the loop variables are shared by all iterations before go1.22: their address must not be taken
+	block, keyID, err := gen.Build(ctx, xtype.OtherID(jen.Id(key)), source.MapKey, target.MapKey, errPath)
 	if err != nil {
 		return nil, err.Lift(&Path{
 			SourceID:   "[]",
@@ -35,7 +36,7 @@ func (*Map) Assign(gen Generator, ctx *MethodContext, assignTo *AssignTo, source
 		})
 	}
 	valueStmt, err := gen.Assign(
-		ctx, assignTo.WithIndex(keyID.Code).MustAssign(), xtype.VariableID(jen.Id(value)), source.MapValue, target.MapValue, errPath)
+		ctx, assignTo.WithIndex(keyID.Code).MustAssign(), xtype.OtherID(jen.Id(value)), source.MapValue, target.MapValue, errPath)
 	if err != nil {
 		return nil, err.Lift(&Path{
 			SourceID:   "[]",
